@@ -14,11 +14,11 @@ claimed={
  "C04":("exploration","three-valued fault-free availability oracle (avail) vs. Invoke verdict class and optional zero values","E-dyn",
    "Invoke verdicts and optional zeros compared with the availability recursion on gapped dependency graphs; only yes/no answers are judged, unknown ones are counted","optional keys under decorators and decorator-mediated cycles are unknown by construction"),
  "C07":("fault_enumeration","fault schedules injected by the harness-owned functions; taint, retry and root-cause rules on the event log","E-dyn",
-   "errors and panics injected on 1st/2nd/every execution of random subsets of functions, followed by retries; tainted tokens must never reach a consumer, failures must surface, failed functions re-run","faults are those of user functions only (dig has no I/O)"),
+   "errors and panics injected on 1st/2nd/every execution of random subsets of functions, followed by retries; tainted tokens must never reach a consumer, failures must surface, failed functions re-run","faults are those of user functions only (dig has no I/O); error and panic values include ones that wrap another container's dig error (F15 fixed, F16 known finding)"),
  "C08":("exploration","C01/C04 oracles on a scope-heavy profile (trees up to 5 scopes, Export, late scope creation, invokes from every scope)","E-dyn",
    "visibility and nearest-wins judged through provenance of every argument and verdict class from every scope","as C01"),
  "C09":("exploration","key-exact source() oracle + duplicate verdict table on colliding type/name/group/As universes","E-dyn",
-   "3 types x 3 names x 3 groups so every request has near-miss candidates; duplicates must be rejected, non-duplicates accepted, As values only under the listed interfaces","As with result objects not generated (documented unsupported)"),
+   "3 types x 3 names x 3 groups so every request has near-miss candidates; duplicates must be rejected, non-duplicates accepted, As values only under the listed interfaces","As is combined with result objects only for non-group fields (group-tagged fields ignore it)"),
  "C10":("exploration","multiset equality of group slices with the visible feeders' tokens","E-dyn",
    "every non-soft undecorated group argument compared as a multiset with the union of all visible feeders' outputs; feeder execution counters","group order never compared"),
  "C11":("exploration","lower/upper bound multisets for soft slices + closure check without soft edges","E-dyn",
@@ -26,15 +26,15 @@ claimed={
  "C12":("exploration","source() with decorator layer, decorator counters, Decorate verdict table","E-dyn",
    "consumers below a decorator must hold the nearest decorator's output, the decorator its undecorated (or outer-decorated) input; one decorator per key and scope; decorators run at most once","decorator-mediated cycles excluded statically (DESIGN 10.1)"),
  "C13":("fault_enumeration","error identity / errors.Is / RootCause / errors.As(dig.Error) / IsCycleDetected / PanicError table on faulted and rejection-heavy histories","E-dyn",
-   "every error value returned by Provide/Decorate/Invoke and every escaping panic classified with public predicates only and compared with the failure the harness injected or the rejection cause it constructed","message text never compared"),
+   "every error value returned by Provide/Decorate/Invoke and every escaping panic classified with public predicates only and compared with the failure the harness injected or the rejection cause it constructed","message text never compared; RootCause identity for user errors that wrap a foreign dig error is the known finding F16 (KNOWN_FINDINGS.txt)"),
  "C18":("exploration","expected Info entry lists computed from the signature spec, compared through Input/Output String()","E-dyn",
    "Provide/Decorate/Invoke Info structs compared entry by entry with the list derived from the function spec (nested objects flattened, variadic and error dropped, As expanded); untouched on rejection","ID injectivity is checked by the pool engine when built"),
- "C05":("exploration","real cycle search on every small digraph via hook (exhaustive n<=4) + exhaustive/sampled dig programs under the strict/permissive cycle-graph oracle, child process per batch","E-graph + E-dyn",
-   "three layers: every digraph with <=4 nodes and sampled larger ones pushed through the real search with an independent acyclicity reference and path validation; every dig program with <=3 constructors over 4 scope trees x scope assignment x Export x Provide order x scope timing x Defer (thorough; stratified sample in quick); sampled larger cyclic programs; verdicts judged by must/may cycle rules, process survival and bounded call depth","termination is restated as bounded recursion depth and process survival (a dead worker is a violation with the history as witness)"),
+ "C05":("exploration","real cycle search on every small digraph via hook (exhaustive n<=5) + exhaustive/sampled dig programs under the strict/permissive cycle-graph oracle, child process per batch","E-graph + E-dyn",
+   "three layers: every digraph with <=5 nodes and sampled larger ones pushed through the real search with an independent acyclicity reference and path validation; every dig program with <=3 constructors over 4 scope trees x scope assignment x Export x Provide order x scope timing x Defer (thorough; stratified sample in quick); sampled larger cyclic programs; verdicts judged by must/may cycle rules, process survival and bounded call depth","termination is restated as bounded recursion depth and process survival (a dead worker is a violation with the history as witness)"),
  "C06":("exploration","differential runner: history vs. the same history without the calls the real container rejected","E-dyn x2",
    "every later observable (verdict classes, executions with abstracted provenance, Info, DOT text, String lines) must be identical with and without the rejected registrations; rejected functions must never execute","rejection-heavy profile: ~35% deliberately invalid inputs of 39 causes, duplicates, cycles in target and descendant scopes, multi-key decorator conflicts"),
  "C14":("exploration","grammar-generated garbage (values, signatures, struct tags, options) applied inside valid histories; recover at the API boundary + no-trace differential","E-dyn (garbage grammar)",
-   "any panic escaping Provide/Decorate/Invoke/Visualize/String/option constructors is a violation; rejected inputs must leave no trace (differential); 39 named invalid causes are additionally checked for rejection with a dig error","nil Option values and re-entrant use are not generated"),
+   "any panic escaping Provide/Decorate/Invoke/Visualize/String/option constructors is a violation; rejected inputs must leave no trace (differential); 39 named invalid causes are additionally checked for rejection with a dig error","nil Option values and re-entrant use are not generated; huge zero-size arrays, self-referential values and VisualizeError of every failure origin are"),
  "C15":("exploration","metamorphic differential: same history under re-drawn signature encodings (In/Out nesting, variadic, option vs tag)","E-dyn x2",
    "verdict class, execution set, abstracted provenance of every argument and Info lists must agree between the two encodings, faults included","functions using As and soft groups are not re-encoded (evaluation order of soft fields is encoding dependent by design)"),
  "C16":("exploration","metamorphic differential: permuted registration runs, moved scope creations, toggled Defer","E-dyn x2",
@@ -46,10 +46,17 @@ claimed={
  "C20":("fault_enumeration","callback stream interleaved with the execution log; mock clock via hook","E-dyn",
    "exactly one callback right after each execution and never otherwise; Error nil / root cause identity / PanicError; Runtime equals the mock-clock advance made inside the function","unrecovered panics: only presence is checked"),
 }
+tiny={}
+for i in ("C01","C03","C12"): tiny[i]="; thorough also runs EVERY history of <=4 API calls over a fixed 43-call alphabet (two types, one value group, root/child scope, Export, 4 decorators, 4 invokes; DESIGN 15.1), quick a sample of them"
+for i in ("C02","C04","C05","C08","C09","C10","C11"): tiny[i]="; thorough also runs EVERY history of <=3 API calls over a fixed 43-call alphabet (DESIGN 15.1) and 800k sampled 4-call ones, quick a sample"
+for i in ("C07","C13","C20"): tiny[i]="; thorough also runs EVERY history of <=3 API calls over a fixed 43-call alphabet x EVERY single fault (position x {error, panic, error/panic value wrapping another container's dig error} x {first, every execution}) with retries (DESIGN 15.1-15.2)"
+for i in ("C06","C16","C17"): tiny[i]="; thorough also runs EVERY history of <=3 API calls over a fixed 43-call alphabet as a differential pair (DESIGN 15.1)"
 checks=[]
 for i in ids:
     if i in claimed:
         cat,tech,eng,text,note=claimed[i]
+        text+=tiny.get(i,"")
+        if i in tiny: tech+=" + bounded-exhaustive short histories"
         checks.append({"property_id":i,"quick_cmd":f"./verif.sh check {i} quick","thorough_cmd":f"./verif.sh check {i} thorough",
           "evidence_file":f"/verif/evidence/{i}.json","replay_cmd_template":"./verif.sh replay {path}","engine":eng,
           "level_claimed":{"category":cat,"text":text,"design_ref":"DESIGN.md section 6 "+i},"level_note":note,"technique":tech})
@@ -62,7 +69,7 @@ m={"version":1,"setup_cmd":"./verif.sh setup",
   {"name":"E-pool","path":"/verif/harness/pool","serves_properties":["C18","C19","C20"],"kind_free_text":"384 generated declared functions (distinct code pointers) forwarding to the monitor body: constructor ids, locations, callback names"},
   {"name":"E-graph","path":"/verif/harness/c05.go","serves_properties":["C05"],"kind_free_text":"hook VerifIsAcyclic: the real cycle search on arbitrary digraphs"}],
  "checks":checks,"not_applicable":na,
- "notes":"Runtime monitoring only. Exit 0 held / 1 VIOLATION / 3 INCONCLUSIVE. KNOWN_FINDINGS.txt lists 12 defects found by the monitors, all repaired by fix: commits in /repo."}
+ "notes":"Runtime monitoring only. Exit 0 held / 1 VIOLATION / 3 INCONCLUSIVE. KNOWN_FINDINGS.txt lists 21 genuine defects observed by the monitors on the unrepaired tree: 20 repaired by fix: commits in /repo, 1 recorded as a known finding (F16, C13). DESIGN.md sections 14 and 15 are authoritative for what exists."}
 json.dump(m,open('/verif/MANIFEST.json','w'),indent=1)
 import jsonschema
 jsonschema.validate(m,json.load(open('/root/.vp/MANIFEST.schema.json')))
